@@ -4,7 +4,8 @@ from vlib.common import Rng
 
 METHODS = ['GET', 'HEAD', 'POST', 'PUT', 'DELETE', 'CONNECT', 'OPTIONS', 'TRACE', 'PATCH']
 VERSIONS = ['HTTP/0.9', 'HTTP/1.0', 'HTTP/1.1', 'HTTP/2.0']
-BUILTIN = ['/', '/style.css', '/script.js', '/favicon.svg', '/form-get-method?a=1&b=2', '/file-upload/initiate?name=a&lastModified=1&size=2']
+BUILTIN = ['/', '/style.css', '/script.js', '/favicon.svg', '/form-get-method?a=1&b=2', '/file-upload/initiate?name=a&lastModified=1&size=2',
+           '/form-get-method?a=1&a=2', '/form-get-method?tag&tag', '/file-upload/initiate?name=a&name=b&lastModified=1&size=2&size=3']
 
 WEIRD_TARGETS = ['x', '*', ':', '@', ']', '[', ':80', ':x', 'http://a/b', 'http://a', 'https://h:1/x?y#z', '//', '//h/..', '/..', '/../x',
                  '..', '.', '', '?', '#', '/?', '/#', '/a?b#c', '/%', '/%2e%2e/x', '/a\\..\\b', '\\', '/ ', '/\t', 'a b', '/a//b', '/./a',
@@ -65,20 +66,28 @@ def valid_request(rng, paths):
     m = rng.choice(METHODS if rng.chance(1, 3) else ['GET', 'GET', 'HEAD', 'OPTIONS', 'POST'])
     t = rng.choice(paths) if paths and rng.chance(3, 4) else rng.choice(BUILTIN)
     if rng.chance(1, 6): t += '?' + rand_token(rng) + '=' + rand_token(rng)
+    if rng.chance(1, 12): t = t.split('?')[0] + rng.choice(['?a=1&a=2', '?x&x', '?k=v&K=v', '?a=1&b=2&a=1'])     # a query key given twice
     if rng.chance(1, 10): t += '#' + rand_token(rng)
     body = b''
     hs = rand_headers(rng)
+    if hs and rng.chance(1, 8):      # a header given twice: same spelling, another case, another value
+        n, v = rng.choice(hs)
+        hs.insert(rng.below(len(hs) + 1), (rng.choice([n, n.lower(), n.upper()]), rng.choice([v, v + 'x', ''])))
     if m == 'POST' and rng.chance(1, 2):
         k = rng.below(3)
         if k == 0:
             t = '/form-url-encoded-enctype-post-method'; hs.append(('Content-Type', 'application/x-www-form-urlencoded'))
-            body = rng.choice([b'a=1&b=2', b'', b'a', b'\xff\xfe', b'a=%zz&&=', b'k=v' * 50])
+            body = rng.choice([b'a=1&b=2', b'', b'a', b'\xff\xfe', b'a=%zz&&=', b'k=v' * 50,
+                               # the same field more than once (check-box groups, multiple selects), in every shape
+                               b'color=red&color=green', b'a=1&b=2&a=3', b'tag&tag', b'a=1&a=1', b'a=&a=', b'A=1&a=2', b'a%20b=1&a+b=2', b'=1&=2', b'x=1&x=2&x=3&x=4'])
         elif k == 1:
             t = '/form-multipart-enctype-post-method'; hs.append(('Content-Type', 'multipart/form-data; boundary=B'))
             body = rng.choice([b'--B\r\nContent-Disposition: form-data; name="a"\r\n\r\nv\r\n--B--\r\n',
                                b'--B\r\nContent-Disposition: form-data\r\n\r\nv\r\n--B--\r\n',
                                b'--B\r\nContent-Disposition: form-data; name="a"\r\n\r\n\xff\xfe\r\n--B--\r\n',
-                               b'--B\r\nX: y\r\n\r\nv\r\n--B--\r\n', b'--B\r\n', b'', b'--B--', b'--B\r\n\r\n\r\n--B--\r\n'])
+                               b'--B\r\nX: y\r\n\r\nv\r\n--B--\r\n', b'--B\r\n', b'', b'--B--', b'--B\r\n\r\n\r\n--B--\r\n',
+                               b'--B\r\nContent-Disposition: form-data; name="a"\r\n\r\n1\r\n--B\r\nContent-Disposition: form-data; name="a"\r\n\r\n2\r\n--B--\r\n',
+                               b'--B\r\nContent-Disposition: form-data; name="a"\r\nContent-Disposition: form-data; name="b"\r\n\r\n1\r\n--B--\r\n'])
         else:
             t = rng.choice(['/file-upload/initiate?name=a&lastModified=1&size=2', '/file-upload/initiate', '/file-upload/initiate?name=a', '/file-upload/initiate?%=&&'])
     return m, t, rng.choice(VERSIONS) if rng.chance(1, 5) else 'HTTP/1.1', hs, body
